@@ -362,39 +362,33 @@ where
         true => sources
             .into_par_iter()
             .map(|source| {
-                (
+                let shortest_paths_from_source = single_source(
+                    graph,
+                    weighted,
                     source.clone(),
-                    single_source(
-                        graph,
-                        weighted,
-                        source.clone(),
-                        target.clone(),
-                        cutoff,
-                        first_only,
-                        with_paths,
-                    )
-                    .unwrap(),
-                )
+                    target.clone(),
+                    cutoff,
+                    first_only,
+                    with_paths,
+                )?;
+                Ok((source, shortest_paths_from_source))
             })
-            .collect(),
+            .collect::<Result<Vec<_>, Error>>()?,
         false => sources
             .into_iter()
             .map(|source| {
-                (
+                let shortest_paths_from_source = single_source(
+                    graph,
+                    weighted,
                     source.clone(),
-                    single_source(
-                        graph,
-                        weighted,
-                        source.clone(),
-                        target.clone(),
-                        cutoff,
-                        first_only,
-                        with_paths,
-                    )
-                    .unwrap(),
-                )
+                    target.clone(),
+                    cutoff,
+                    first_only,
+                    with_paths,
+                )?;
+                Ok((source, shortest_paths_from_source))
             })
-            .collect(),
+            .collect::<Result<Vec<_>, Error>>()?,
     };
     Ok(shortest_paths.into_iter().collect())
 }
